@@ -15,6 +15,8 @@ func checkC01(c *Ctx, r *Report) {
 	r.Trusted = []string{"go/types + go/packages resolution of callees and fields", "RFC layout table in checker/e1.go (authored from the RFCs, reviewed against DESIGN.md Appendix B)", "kind->helper table in checker/e1.go"}
 	r.Assumptions = []string{"PrivateRR delegates pack/unpack to user-supplied PrivateRdata (outside the module)"}
 	c01R1(c, r)
+	headerAsRead(c, r, "C01.R1.header-as-read")
+	expireEmptyByFlag(c, r, "C01.R3.expire-empty-by-flag")
 	c01R2(c, r)
 	c01R3(c, r)
 	borrow(c, r, checkC03, "C03.R1.total-limit", "C01.R1.name-limit", 1, "packDomainName accepts every name of up to 255 wire octets (the same limit the decoder applies)", func(k string) bool { return k == "packDomainName" }, "a record whose name has exactly 255 octets unpacks but cannot be packed again: the message is not reproduced")
